@@ -287,6 +287,7 @@ PROPS.update({
         "while plotting: massdb.v1.go)."),
 })
 PROPS["C11"]["props"].append("MassVerif.Props.C11Scan")
+PROPS["C11"]["props"].append("MassVerif.Props.C07File")      # the header block: what is written is what is checked
 PROPS["C11"]["drivers_mod"].append("MassVerif.Driver.Scan")
 PROPS["C11"]["harnesses"].append({"name": "scan", "pkg": "harness/scan", "driver": "MassVerif/Driver/Scan.lean",
                                   "quick": {"n": 150}, "thorough": {"n": 3000}, "search": {"n": 1500}, "replayable": False})
@@ -294,6 +295,16 @@ PROPS["C11"]["harnesses"].append({"name": "scan", "pkg": "harness/scan", "driver
 PROPS["C10"]["drivers_mod"].append("MassVerif.Driver.Scan")
 PROPS["C10"]["harnesses"].append({"name": "scan", "pkg": "harness/scan", "driver": "MassVerif/Driver/Scan.lean",
                                   "quick": {"n": 60}, "thorough": {"n": 1500}, "search": {"n": 600}, "replayable": False})
+BYTES_TEXT = (" Byte level (Model/PlotFile, Props/C07File): the record-level tables are carried down to the files as the code writes "
+    "them - L-byte little-endian records, a cache of any byte length flushed whole (zeros spill past the window), cache lengths as "
+    "makeAvailableMemory yields them, checkpoint and data in one file: for every window history the file's records below its checkpoint "
+    "decode to the record-level table, a completed map A / map B on disk decodes to the construction, Get returns the stored pair and "
+    "GetProof serves exactly it iff the library's VerifyProof accepts it; every window makes progress and stays inside the table under "
+    "the code's memory bounds; the checkpoint write touches only its 8 bytes, a data write never the header block; the header written "
+    "by createMapFile is the header loadHashMap reads, field by field. Correspondence: both data regions byte for byte (complete plots, "
+    "images after k windows, resumes of crash images), header blocks, and mutated headers through LoadHashMap.")
+for _p in ("C07", "C10", "C11"):
+    PROPS[_p]["level_text"] += BYTES_TEXT
 PROPS["C11"]["level_text"] += (" Start-up half (Props/C11Scan, Model/Scan): for every wallet, directory content and entry order the "
     "scan indexes no space twice; every indexed space comes from an entry with a plot-file name, a valid key and bit length and the "
     "wallet's ordinal for that key; whatever canonical map-B file it will serve proofs from loaded (size, code, version, key, key hash), "
